@@ -905,6 +905,15 @@ def run(ctx):
         for pi, pos in enumerate(cl_pos):
             lit = "(%s){ 0 }" % ty
             cl_lines.append("void cl%d_%d(void) { %s }" % (ti, pi, pos.replace("%s", lit)))
+    # every prefix operator on every kind of operand that starts with a parenthesis (casts by typedef name and by keyword, nested casts, casts of
+    # prefix expressions, parenthesised expressions, compound literals): 6.5.3p1 / 6.5.4 - gcc filters the ill-typed combinations line by line
+    un_ops = ["!", "~", "-", "+", "*", "&", "++", "--", "sizeof ", "- -", "! !", "~ -", "* &", "& *", "(void) ", "(T) ", "(int) "]
+    un_operands = ["(int) x", "(T) x", "(T *) p", "(int *) p", "(int) sizeof x", "(T) (x)", "(T) -x", "(T) !x", "(T) ~x", "(int) (T) x", "(T) (int) x", "(x)", "(*p)", "(T){ 0 }",
+                   "(T *){ p }", "(T) x + 1", "(T) x * (T) x", "(T *) p + 1", "*(T *) p", "&*(T *) p", "(T) sizeof (T)", "(T) _Alignof(T)", "(p)[0]", "(T) p[0]", "(T) x++"]
+    for oi, op_ in enumerate(un_ops):
+        for ai, a_ in enumerate(un_operands):
+            cl_lines.append("void un%d_%d(int x, int *p) { (void) (%s%s); }" % (oi, ai, op_, a_))
+            cl_lines.append("int uv%d_%d(int x, int *p) { return 0 + %s%s ? 1 : 0; }" % (oi, ai, op_, a_))
     progs.append(("complit", "c11", "\n".join(cl_lines) + "\n"))
 
     def gcc_ok(p):
